@@ -1,15 +1,29 @@
 # Driver configuration for property C03
 PROP = dict(
     pkg="c03", level="exploration",
-    technique="model-based stateful PBT: list of abstract-state snapshots as history oracle, both state backends on the same history",
-    level_text=("Exploration: generated store/revert/restart histories; after every step every retained block (by number and hash) and the head are "
+    technique="model-based stateful PBT: list of abstract-state snapshots as history oracle, both state backends on the same history, incl. blocks that are applied to the state but never reach the chain (dry runs, rejected stores)",
+    level_text=("Exploration: generated store/revert/restart/dry-run/rejected-store histories; after every step every retained block (by number and hash) and the head are "
                 "read exhaustively over the case's finite universe (contracts incl. 0x1/0x2, written and never-written slots, Sierra/Cairo-0 classes, "
-                "CASM hashes) and compared with the reference snapshot of that block."),
-    rule=("rapid state machine store/revert/restart (chains up to 9 blocks, dense reuse of 3-6 contracts and 3-7 slots sharing prefixes, zero writes, "
-          "same-value rewrites, replacements, migrations); in a third of the stores readers of the current head block (by number and by hash) are "
-          "opened before the store and re-read after it; non-trivial = a slot written in >= 2 retained blocks, or chain extended after a revert; "
-          "distinct = SHA-256 of the rendered history (diffs included)."),
+                "CASM hashes) and compared with the reference snapshot of that block. A dry run (Blockchain.Simulate of a candidate for head+1) and a "
+                "store that is refused do not change the model: whatever they leave behind shows up as a difference in one of these reads."),
+    rule=("rapid state machine over 8 equally likely action names: store x2, revert x2, dryRun x2, storeRejected, restart (chains up to 9 blocks, dense reuse of 3-6 contracts and "
+          "3-7 slots sharing prefixes, zero writes, same-value rewrites, replacements, migrations; memory or, in a third of the cases, Pebble v2). "
+          "store: the next generated block or (1/3 when one fits the head) a candidate that was dry-run on this parent before - also one that first lost against another "
+          "block which was then reverted; through SanityCheckNewHeight+Store or (1/4) through Finalise with or without a signer, whose computed hash/root must equal "
+          "the reference; in a third of the stores readers of the current head block (by number and by hash) are opened before the store and re-read after it. "
+          "dryRun: Simulate (nil signer, OldRoot = current root, as builder.Finish does) a generated candidate for head+1 drawn from the same universe "
+          "(declares classes, deploys, replaces, nonces, storage, migrations), or again a candidate already tried on this parent; the candidate is dropped, the "
+          "chain goes on with a different block or later with the same one. "
+          "storeRejected: a self-consistent block (hash matches content, passes the sanity check) that Store must refuse: wrong new root (old root / zero / random); "
+          "failure AFTER the state diff was verified and flushed (pre-0.14.1: Sierra declaration without its definition, 0.14.1: CASM migration of a class already on "
+          "the blake2s hash or never declared - root sealed with the leaf juno writes, so only the CASM-hash bookkeeping of the block content fails); deploy of an "
+          "already deployed contract; wrong parent hash; wrong height (valid sibling of the head); a stale dry-run candidate whose parent is no longer the head. "
+          "non-trivial = a slot written in >= 2 retained blocks, or chain extended after a revert, or a block stored at a height where a different block had been "
+          "dry-run/rejected; distinct = SHA-256 of the rendered history (diffs, dry runs and rejected blocks included)."),
     assumptions=["the HEAD reader may answer zero for a storage read of a contract that does not exist (existing design, RPC compensates); readers of a given block (by number or hash) must report not found",
-                 "reference model validated on mainnet fixtures (C01)"],
+                 "reference model validated on mainnet fixtures (C01)",
+                 "dry runs are made on an existing head only (builder.InitPreconfirmedBlock needs a head header) and only for height head+1",
+                 "a block that Store must refuse (explicit error paths: state-root mismatch, ErrContractAlreadyDeployed, ErrParentDoesNotMatchHead, height check, "
+                 "missing class definition / ErrCannotMigrate* in the CASM-hash metadata) counts as a violation when it is accepted"],
     runs=[dict(run="^Test(Prop|Known)")],
 )
